@@ -42,7 +42,7 @@ type sizes struct {
 
 func tierSizes(c *vf.Ctx) sizes {
 	if c.Thorough() {
-		return sizes{cond: 240000, arith: 160000, source: 30000, sort: 10000, stmt: 60000, opts: 40000, plan: 25000, chunk: 40000}
+		return sizes{cond: 200000, arith: 130000, source: 24000, sort: 8000, stmt: 50000, opts: 32000, plan: 20000, chunk: 32000}
 	}
 	return sizes{cond: 12000, arith: 8000, source: 2000, sort: 1000, stmt: 4000, opts: 2000, plan: 1500, chunk: 2000}
 }
